@@ -1257,6 +1257,9 @@ do_stop_when_done(Ctx& x)
         any_trigger |= x.acqs[ai].cfg.trigger;
         any_fault |= x.acqs[ai].cfg.fault_site != 0;
     }
+    // ("Running only while workers are alive" is judged against the moment BEFORE the call: with preemption
+    // inside acquire_get_state the last worker may exit between its reading of the flags and its return)
+    bool alive_before = workers_alive(x);
     while (!x.c.ended && !x.aborted_current && acquire_get_state(x.rt) == DeviceState_Running) {
         // Every worker blocked (none runnable, none sleeping) while the runtime still reports
         // Running: nobody but this client could ever wake them, and it only polls.  That is a hang
@@ -1291,8 +1294,8 @@ do_stop_when_done(Ctx& x)
                 break;
             }
         }
-        if (!workers_alive(x)) {
-            x.c.fail_soft("C08", "running-without-workers", "poll", "acquire_get_state reports Running although no worker thread is alive");
+        if (!alive_before) {
+            x.c.fail_soft("C08", "running-without-workers", "poll", "acquire_get_state reports Running although no worker thread was alive when it was called");
             break;
         }
         for (int s = 0; s < 2; ++s)
@@ -1303,6 +1306,7 @@ do_stop_when_done(Ctx& x)
         sleep_ms(2.0f);
         if (++polls > 4000)
             break;
+        alive_before = workers_alive(x);
     }
     if (x.c.ended)
         return;
@@ -1454,15 +1458,19 @@ other_main(void*)
         }
         x.c.trace("other thread: ABORT%s", concurrent ? "   (the first client thread is inside acquire_stop)" : "");
         x.aborted_current = true;
+        int acq0 = x.acq_index;
         acquire_abort(x.rt);
         x.c.trace("other thread: abort returned");
         // abort has returned: whatever the other thread is doing, the workers are gone and the devices stopped
-        if (!x.c.ended && workers_alive(x))
+        // (unless the first client thread has started the next acquisition in the meantime)
+        if (x.acq_index != acq0)
+            ;
+        else if (!x.c.ended && workers_alive(x))
             x.c.fail("C07", "abort-returned-early", concurrent ? "concurrent-with-stop" : "other-thread",
                      "acquire_abort returned to the second client thread while worker threads of the acquisition are still alive");
         for (size_t ai : x.cur_acqs) {
             const AcqRec& a = x.acqs[ai];
-            if (!x.c.ended && a.cam && a.cam->started && !a.cam->closed)
+            if (x.acq_index == acq0 && !x.c.ended && a.cam && a.cam->started && !a.cam->closed)
                 x.c.fail("C07", "abort-returned-early", "camera-still-started", "acquire_abort returned while the camera of stream %d is still started", a.stream);
         }
     }
@@ -1624,8 +1632,9 @@ client_main(void*)
                 break;
             }
             case K_GET_STATE: {
+                bool alive0 = workers_alive(x);
                 DeviceState st = acquire_get_state(x.rt);
-                if (st == DeviceState_Running && !workers_alive(x))
+                if (st == DeviceState_Running && !alive0)
                     x.c.fail_soft("C08", "running-without-workers", "get_state", "acquire_get_state reports Running although no worker thread is alive");
                 break;
             }
